@@ -1017,3 +1017,75 @@ def run_normstale(prog, E=None, prefix="mpq_", rule="R-NORMSTALE", floor=3):
     res.counts["public_matrix_writers"] = n
     res.floor("public functions that may write matrix entries without changing a dimension", n, floor)
     return res
+
+
+class MustFollowLook(MustFollow):
+    """as MustFollow; a condition that examines the given field of the problem (p->basis) counts as dealing with what hangs on it: the
+    code behind it runs only where there is something to deal with"""
+
+    def __init__(self, prog, f, mut, inv, field):
+        MustFollow.__init__(self, prog, f, mut, inv)
+        self.field = field
+
+    def refine(self, cond, truth, st):
+        r = MustFollow.refine(self, cond, truth, st)
+        if not r:
+            return r
+        if any(isinstance(nd, list) and nd and nd[0] == "m" and nd[2].endswith(self.field) for nd in walk(cond)):
+            return [(s_[0], s_[1], 0, s_[3]) for s_ in r]
+        return r
+
+
+def run_rstatsense(prog, E=None, prefix="mpq_", rule="R-RSTATSENSE", floor=3):
+    """the row statuses kept with the problem's basis depend on the row senses: QS_ROW_BSTAT_UPPER is a status of ranged rows only
+    (ILLbasis_load rejects it for any other sense).  A public function that may store into ILLlpdata::sense must, on every path from
+    that store to a success return, pass an event that deals with the row statuses of p->basis (a store into ILLlp_basis::rstat through
+    p->basis - directly, in a helper, or inside the library routine that extends / repacks the basis - or the replacement of the basis
+    record).  Otherwise a row that leaves 'R' while its logical is non-basic at upper keeps a status the next solve cannot load: every
+    later QSopt_primal / dual fails until the caller replaces the basis."""
+    E = E or Effects(prog)
+    res = RuleResult(rule, "every public function that may change a row sense deals with the row statuses of p->basis on every path from the change "
+                           "to a success return")
+    n = 0
+    for f, pidx in api_functions(prog, prefix):
+        if f.live is None:
+            continue
+        mut = events(prog, E, f, pidx, {"sense"}, prefix)
+        if not mut:
+            continue
+        bname = base(f.name)
+        if bname in ("QSfree_prob",):
+            continue
+        n += 1
+        res.obligations += 1
+        res.nontrivial += 1
+        inv = set()
+        for ci in E.callinfo[f.key]:
+            (g, name, loc, args, bid, idx, c) = ci
+            if g is None:
+                continue
+            if any(fp and fp[-1].endswith("ILLlp_basis::rstat") for (j, fp) in E.call_writes(f, ci)):
+                inv.add((bid, idx))
+            elif g.key in getattr(prog, "_rstatsense_ok", set()):
+                inv.add((bid, idx))
+        for (j, fp, loc, how, bid, idx) in E.direct_writes(f):
+            if fp and fp[-1].endswith("ILLlp_basis::rstat"):
+                inv.add((bid, idx))
+            if j == pidx and len(fp) == 1 and fp[0].endswith("qsdata::basis"):
+                inv.add((bid, idx))
+        # the normalisation sits behind `if (p->basis && p->basis->rstat)`: only functions that contain a store into the row statuses (or hand
+        # the basis to a routine that does) can be discharged by looking at the basis
+        an = (MustFollowLook(prog, f, mut, inv, "qsdata::basis") if inv else MustFollow(prog, f, mut, inv)).run()
+        if an.bad:
+            loc, (bid, st) = sorted(an.bad.items())[0]
+            what = sorted(set(d for (_, d) in mut.values()))
+            res.violations.append(Violation(rule, "%s|sense written, row statuses of the basis left alone" % bname, f.name, short_loc(loc),
+                                            "%s; a return with code 0 is reachable on which the rstat of p->basis has been neither rewritten nor dropped: a row that "
+                                            "left 'R' keeps the status UPPER, which ILLbasis_load rejects for its new sense" % "; ".join(what[:2]),
+                                            path=an.flow.witness(bid, st)))
+        else:
+            prog.__dict__.setdefault("_rstatsense_ok", set()).add(f.key)
+            res.sample({"function": f.name, "verdict": "row statuses dealt with on every success path"}, limit=10)
+    res.counts["public_sense_writers"] = n
+    res.floor("public functions that may store a row sense", n, floor)
+    return res
